@@ -32,7 +32,7 @@ ASSUME = [
 TIERS = {
     # per_class: cases per (flow, stage, tamper) class; group: cases per world
     "quick": dict(per_class=1, group=8, mutants=["validate"], tv_chunks=6, replay_timeout=150),
-    "thorough": dict(per_class=1000, group=8, mutants=["validate", "check_fees", "partsigs+aggsig+kernel_verify", "restore_fee", "restore_amount", "proof"],
+    "thorough": dict(per_class=1000, group=8, mutants=["validate", "check_fees", "restore_fee", "restore_amount"],
                      tv_chunks=10, replay_timeout=1300),
 }
 
@@ -109,6 +109,61 @@ def validate(nd, tag, chunks):
             skips += sk
             m_ok = m_ok and ok
     return viols, nonconfs, skips, m_ok
+
+
+def selftest_corrupt(events):
+    """binding self-test: corrupt one recorded field of a validated trace line and require the
+    TLA+ side (Layer P) to reject exactly that"""
+    import copy
+    ok_ev = next((e for e in events if e.get("run") == "ok" and e["o"]["res"] == "ok" and e["o"]["tx"]["chain_ok"]), None)
+    bad_ev = next((e for e in events if e.get("run") == "ok" and e["o"]["res"] != "ok" and e["c"].get("verdict") == "must_fail" and e["o"]["cancel"]), None)
+    if not ok_ev or not bad_ev:
+        return None
+    want, lines = {}, []
+
+    def add(ev, i, mon, f):
+        x = copy.deepcopy(ev)
+        x["c"]["id"] = i
+        f(x["o"])
+        lines.append(json.dumps(x))
+        want[i] = mon
+
+    def fee(o): o["tx"]["fee"] += 1
+    def stored(o): o["tx"]["stored_equal"] = False
+    def inputs(o): o["tx"]["ins"] = o["tx"]["ins"][1:]
+    def amount(o): o["deal"]["amt"] += 1
+    def chain(o): o["tx"]["chain_ok"] = False
+    def accepted(o):
+        o["res"] = "ok"
+        o["tx"] = copy.deepcopy(ok_ev["o"]["tx"])
+    def balance(o): o["after"]["spendable"] -= 1
+    def cancel(o): o["cancel"][0] = "err:notfound"
+    add(ok_ev, 900001, "FinalTxValidExact.fee", fee)
+    add(ok_ev, 900002, "FinalTxValidExact.stored", stored)
+    add(ok_ev, 900003, "FinalTxValidExact.inputs", inputs)
+    add(ok_ev, 900004, "FinalTxValidExact.amount", amount)
+    add(ok_ev, 900005, "FinalTxValidExact.chain", chain)
+    add(bad_ev, 900006, "TamperRefused", accepted)
+    add(bad_ev, 900007, "StillCancellable", balance)
+    add(bad_ev, 900008, "StillCancellable", cancel)
+    lines.append(json.dumps(ok_ev))      # an untouched line must stay clean
+    d = workdir("selftest_C02")
+    p = os.path.join(d, "corrupt.ndjson")
+    with open(p, "w") as f:
+        f.write("\n".join(lines) + "\n")
+    r = run_tlc("TraceTamper.tla", os.path.join(SPEC, "TraceTamperP.cfg"), "tv_C02_selftest", workers=1, env={"TRACE": p}, timeout=300,
+                depth_first=True, keep_tags=("VIOL",), max_keep=10000)
+    if tlc_consumed(r["out"]) is None:
+        log(r["out"][-2000:])
+        raise ToolError("self-test trace was not consumed")
+    got = {}
+    for v in parse_printed(r["printed"]["VIOL"], "VIOL"):
+        got.setdefault(v["id"], set()).add(v["m"])
+    missed = [i for i, m in want.items() if m not in got.get(i, set())]
+    clean = ok_ev["c"]["id"] not in got
+    if missed or not clean:
+        raise ToolError("binding self-test failed: corrupted lines not rejected %s / untouched line clean: %s" % (missed, clean))
+    return {"corrupted_lines_rejected": len(want), "untouched_line_clean": clean}
 
 
 def run(tier, replay_path, t0):
@@ -191,6 +246,9 @@ def run(tier, replay_path, t0):
             log("  spec mutant without %-32s: %s" % (m, ("caught by %d classes e.g. %s" % (len(r["caught_by"]), r["caught_by"][:4])) if r["caught_by"] else "NOT CAUGHT"))
         if any(not r["caught_by"] for r in mutants.values()):
             raise ToolError("a seeded spec mutant was not caught: the model invariants are vacuous")
+    st = selftest_corrupt(events) if not keys else None
+    if st:
+        log("  binding self-test: %d corrupted trace lines rejected by the TLA+ monitors, the untouched line accepted" % st["corrupted_lines_rejected"])
     known, new = classify("C02", keys)
     ran = [e for e in events if e.get("run") == "ok"]
     kinds, wit = {}, {"success_validated_and_mined": 0, "must_fail_refused": 0, "may_fail_succeeded": 0, "failed_then_cancelled": 0,
@@ -241,6 +299,7 @@ def run(tier, replay_path, t0):
         "outcome_kinds": kinds,
         "vacuity_witnesses": wit,
         "spec_mutants": mutants,
+        "binding_selftest": st,
         "layer_p_violation_keys": {k: v["count"] for k, v in keys.items()},
         "layer_m_nonconformances": len(nonconfs),
         "layer_m_first": nonconfs[:2],
